@@ -6,6 +6,7 @@ import (
 	"fmt"
 	"sort"
 	"strings"
+	"sync"
 	"testing"
 	"time"
 
@@ -35,6 +36,9 @@ type C05Op struct {
 	DtNs    int64     `json:"dt_ns,omitempty"`
 	FKind   string    `json:"fkind,omitempty"` // fault: list | load | store | delete
 	Faults  []string  `json:"faults,omitempty"`
+	// Held (app): the transaction stays open - holding the LMDB write lock - until the instance's loop is
+	// stepped next, and commits 2 ms after the loop was let go
+	Held bool `json:"held,omitempty"`
 }
 
 type C05Case struct {
@@ -70,7 +74,9 @@ type c05Fleet struct {
 		// by construction - the instance is stepped to its next yield point first - and counted.
 		excludedTxnReuse int
 		budgetExhausted  int
+		held             int
 	}
+	held map[int]*heldTxn
 }
 
 // excludedFindings reports the redirections to the evidence.
@@ -214,6 +220,9 @@ func newC05Fleet(c C05Case) (*c05Fleet, error) {
 }
 
 func (f *c05Fleet) close() {
+	for i := range f.nodes {
+		_ = f.finishHeld(i)
+	}
 	for _, nd := range f.nodes {
 		nd.Stop()
 		nd.Forget()
@@ -221,9 +230,63 @@ func (f *c05Fleet) close() {
 	}
 }
 
+// heldTxn is an application write transaction that is still open: it holds the LMDB write lock of its
+// instance until released (when that instance's loop is stepped next, 2 ms after the loop was let go).
+type heldTxn struct {
+	release chan struct{}
+	done    chan error
+	once    sync.Once
+}
+
+func (h *heldTxn) free() { h.once.Do(func() { close(h.release) }) }
+
+// appHold starts an application transaction on instance i that stays open.
+func (f *c05Fleet) appHold(i int, changes []SChange) error {
+	if err := f.finishHeld(i); err != nil {
+		return err
+	}
+	h := &heldTxn{release: make(chan struct{}), done: make(chan error, 1)}
+	holding := make(chan struct{})
+	go func() {
+		h.done <- f.appCommitHold(i, changes, func() { close(holding); <-h.release })
+	}()
+	select {
+	case <-holding:
+	case err := <-h.done:
+		return fmt.Errorf("held transaction ended early: %v", err)
+	case <-time.After(20 * time.Second):
+		h.free()
+		return fmt.Errorf("the application could not get the LMDB write lock within 20 s")
+	}
+	if f.held == nil {
+		f.held = map[int]*heldTxn{}
+	}
+	f.held[i] = h
+	f.stats.held++
+	return nil
+}
+
+// finishHeld lets an open application transaction of instance i commit and waits for it.
+func (f *c05Fleet) finishHeld(i int) error {
+	h := f.held[i]
+	if h == nil {
+		return nil
+	}
+	delete(f.held, i)
+	h.free()
+	return <-h.done
+}
+
 func (f *c05Fleet) appCommit(i int, changes []SChange) error {
+	return f.appCommitHold(i, changes, nil)
+}
+
+func (f *c05Fleet) appCommitHold(i int, changes []SChange, hold func()) error {
 	nd := f.nodes[i]
 	return nd.Env.Update(func(txn *lmdb.Txn) error {
+		if hold != nil {
+			defer hold()
+		}
 		for _, ch := range changes {
 			dbiName := fleetDBIs[ch.DBI%len(fleetDBIs)]
 			key := fleetKeys[ch.Key%len(fleetKeys)]
@@ -265,7 +328,18 @@ func (f *c05Fleet) step(i int, n int, until string) error {
 		if !nd.parked {
 			return nil
 		}
+		if h := f.held[i]; h != nil {
+			// the application's open transaction commits 2 ms after the loop was let go (i.e. while the
+			// loop waits for the write lock, if it needs it before its next yield point)
+			go func() {
+				time.Sleep(2 * time.Millisecond)
+				h.free()
+			}()
+		}
 		y, err := nd.Step()
+		if herr := f.finishHeld(i); herr != nil && err == nil {
+			err = fmt.Errorf("harness: held application transaction: %v", herr)
+		}
 		if err != nil {
 			return err
 		}
@@ -297,6 +371,11 @@ func (f *c05Fleet) exec(oi int, op C05Op) error {
 	i := op.Inst % f.c.N
 	nd := f.nodes[i]
 	where := fmt.Sprintf("step %d (%s i%d)", oi, op.Kind, i)
+	if op.Kind != "step" && op.Kind != "settle" && op.Kind != "fault" {
+		if err := f.finishHeld(i); err != nil {
+			return fmt.Errorf("%s: harness: held application transaction: %v", where, err)
+		}
+	}
 	switch op.Kind {
 	case "app":
 		if nd.parked && (nd.At.Point == "load.after-txn" || nd.At.Point == "send.after-txn") && uint64(lm.LastTxnID(nd.Env.Env)) < nd.At.N {
@@ -305,7 +384,11 @@ func (f *c05Fleet) exec(oi int, op C05Op) error {
 				return fmt.Errorf("%s: %w", where, err)
 			}
 		}
-		if err := f.appCommit(i, op.Changes); err != nil {
+		if op.Held && nd.parked {
+			if err := f.appHold(i, op.Changes); err != nil {
+				return fmt.Errorf("%s: harness: %v", where, err)
+			}
+		} else if err := f.appCommit(i, op.Changes); err != nil {
 			return fmt.Errorf("%s: harness: %v", where, err)
 		}
 	case "step":
@@ -391,6 +474,11 @@ func checkC05(c C05Case, o *vcore.Obs) error {
 			return err
 		}
 	}
+	for i := range f.nodes {
+		if err := f.finishHeld(i); err != nil {
+			return fmt.Errorf("harness: held application transaction: %v", err)
+		}
+	}
 	// run everybody for a while so that pending uploads happen, still under the invariants
 	for r := 0; r < 3; r++ {
 		for i := range f.nodes {
@@ -403,6 +491,7 @@ func checkC05(c C05Case, o *vcore.Obs) error {
 	o.NonTrivial((f.stats.emptiedRestart > 0 && f.stats.soleCopyAtRisk) || f.stats.cleanerDeletedNewest > 0)
 	f.excludedFindings(o)
 	o.ClassIf(f.stats.budgetExhausted > 0, "sync-gave-up-after-retry-budget-and-was-restarted")
+	o.ClassIf(f.stats.held > 0, "app-txn-held-the-write-lock-while-the-loop-ran-on")
 	o.ClassIf(f.stats.emptiedRestart > 0, "restart-with-emptied-lmdb")
 	o.ClassIf(f.stats.crashes > f.stats.emptiedRestart, "restart-with-kept-lmdb")
 	o.ClassIf(f.stats.cleanerDeletedNewest > 0, "cleaner-deleted-a-newest-snapshot")
@@ -435,6 +524,7 @@ func genC05(t *rapid.T) C05Case {
 			for j := 0; j < rapid.IntRange(1, 2).Draw(t, "nch"); j++ {
 				op.Changes = append(op.Changes, genSChange(t, &lc, 3))
 			}
+			op.Held = rapid.IntRange(0, 3).Draw(t, "held") == 0
 		case "step":
 			op.Steps = rapid.IntRange(1, 40).Draw(t, "steps")
 			if rapid.Bool().Draw(t, "until?") {
@@ -469,7 +559,7 @@ func genC05(t *rapid.T) C05Case {
 
 func TestC05Bucket(t *testing.T) {
 	vcore.Run(t, vcore.Config{Property: "C05", Inflight: true,
-		Rule: "2-3 real instances, each running the real sync loop under the yield-point scheduler against one shared bucket: application commits (stamped with the shared clock), loop steps (n yields or until a named yield point), crash at the current yield point + restart with the LMDB kept or emptied, cleaner runs at generated monotone times (intervals from {0, 1 ms, 1 h} / {1 s, 1 h, 7 d}), List/Load/Store/Delete fault plans incl. 'applied but error returned'; after EVERY bucket mutation the per-key best timestamp over the newest decodable snapshot of every instance must not decrease or vanish, and every upload of an instance must dominate its own previous newest snapshot; " +
+		Rule: "2-3 real instances, each running the real sync loop under the yield-point scheduler against one shared bucket: application commits (stamped with the shared clock; a quarter with the write transaction still open, holding the LMDB write lock, when the instance's loop is stepped next), loop steps (n yields or until a named yield point), crash at the current yield point + restart with the LMDB kept or emptied, cleaner runs at generated monotone times (intervals from {0, 1 ms, 1 h} / {1 s, 1 h, 7 d}), List/Load/Store/Delete fault plans incl. 'applied but error returned'; after EVERY bucket mutation the per-key best timestamp over the newest decodable snapshot of every instance must not decrease or vanish, and every upload of an instance must dominate its own previous newest snapshot; " +
 			"non-trivial = a restart with emptied LMDB while that instance held the only published copy of some key, or a cleaner deletion of an instance's newest snapshot"},
 		genC05, checkC05)
 }
